@@ -10,7 +10,9 @@ import xref
 from common import Stats
 
 RS = ["{}", "_", "%", "XX", "{", "@@", "§", "→", "«»", "é", "日本", "{}", "{}"]
-WORDS = ["a", "b c", "x  y", "file name.txt", "-n", "--", "é ü", "a{}b", "{}", "_", "%", "XX", "1 2 3", "tab\there", "q", "*", "$HOME"]
+WORDS = ["a", "b c", "x  y", "file name.txt", "-n", "--", "é ü", "a{}b", "{}", "_", "%", "XX", "1 2 3", "tab\there", "q", "*", "$HOME",
+         # lines that are not valid UTF-8 (carried as surrogate escapes): "the entire line" means its bytes
+         "caf\udce9", "\udcff\udcfe x", "a\udcc3", "\udce6\udc97 b"]
 
 
 def gen_lines(rng, R):
@@ -70,7 +72,7 @@ def spell_I(rng, R):
 
 
 def judge_replace(st, detail, rp, r, lines, initial, R):
-    exp = [[a.replace(R, ln).encode() for a in initial] for ln in lines if ln != ""]
+    exp = [[a.replace(R, ln).encode("utf-8", "surrogateescape") for a in initial] for ln in lines if ln != ""]
     got = [argv for _, argv in r.invocations]
     problems = []
     if r.rc != 0:
@@ -100,7 +102,7 @@ def worker(job):
             R = rng.choice(RS)
             optI, Reff = spell_I(rng, R)
             lines = gen_lines(rng, Reff)
-            data = "".join(l + "\n" for l in lines).encode()
+            data = "".join(l + "\n" for l in lines).encode("utf-8", "surrogateescape")
             if lines and rng.random() < 0.2:
                 data = data[:-1]
             initial = gen_initial(rng, Reff)
@@ -115,7 +117,7 @@ def worker(job):
                 oversized_at = rng.randint(0, len(lines))
                 big, sopt = rng.choice([(200000, []), (3000, ["-s", "2000"]), (140000, []), (70000, ["-s", "65536"])])
                 lines = lines[:oversized_at] + ["x" * big] + lines[oversized_at:]
-                data = "".join(l + "\n" for l in lines).encode()
+                data = "".join(l + "\n" for l in lines).encode("utf-8", "surrogateescape")
                 optI = sopt + list(optI)
             if mix < 0.6:
                 opts = list(optI)
@@ -147,7 +149,7 @@ def worker(job):
                 st.inc("runs_with_a_line_too_long_to_pass")
                 detail["stdin"] = data[:200] + b"..." if len(data) > 200 else data
                 before = [ln for ln in lines[:oversized_at] if ln != ""]
-                exp = [[a.replace(Reff, ln).encode() for a in initial] for ln in before]
+                exp = [[a.replace(Reff, ln).encode("utf-8", "surrogateescape") for a in initial] for ln in before]
                 got = [argv for _, argv in r.invocations]
                 if got != exp or r.rc != 1 or not r.err.strip():
                     st.violate("replace-mode", None, dict(detail, problems=["a line too long to pass: expected the %d lines before it to be "
@@ -157,6 +159,8 @@ def worker(job):
                 st.inc("replace_mode_runs")
                 if not Reff.isascii():
                     st.inc("replace_mode_runs_with_multibyte_R")
+                if any("\udc80" <= ch <= "\udcff" for l in lines for ch in l):
+                    st.inc("replace_mode_runs_with_lines_that_are_not_utf8")
                 judge_replace(st, detail, rp, r, lines, initial, Reff)
             else:
                 st.inc("mode_%s_after_mixed_options" % mode)
@@ -198,8 +202,9 @@ def run(ctx):
         print("exit", r.rc, "stderr", r.err, "invocations", r.invocations)
         raise common.Inconclusive("replay shown above")
     nw = common.NCPU
-    n = ctx.scale(1600, 48000)
+    n = ctx.scale(1600, 480000)
     ctx.pmap(worker, [(k, n // nw, ctx.seed) for k in range(nw)])
     for key in ("empty_input_runs", "replace_mode_runs", "mode_n_after_mixed_options", "mode_L_after_mixed_options", "I_with_n1",
-                "replace_mode_runs_with_multibyte_R", "runs_with_a_line_too_long_to_pass"):
+                "replace_mode_runs_with_multibyte_R", "runs_with_a_line_too_long_to_pass",
+                "replace_mode_runs_with_lines_that_are_not_utf8"):
         ctx.require(key, 3)
